@@ -3,6 +3,7 @@ import TsRsVerif.Lemmas.ImportLemmas
 import TsRsVerif.Lemmas.DepsLemmas
 import TsRsVerif.Lemmas.DepsGeneric
 import TsRsVerif.Lemmas.SameFile
+import TsRsVerif.Props.C08
 /-!
 # C03 — exported files import exactly the names they use, from where they live
 
@@ -261,5 +262,25 @@ example : Path.importPath false "/w".toList "./bindings/x/../a/A.ts".toList "bin
     ["w".toList, "bindings".toList, "a".toList]
     (by decide) (by decide) (by decide) (by decide) (by decide) (by decide) (by decide) (by decide)
     (by decide) (by decide)
+
+
+/-- **`generate_imports` drops a dependency only when it lives in the importing file** — the two halves put
+together on `import_path`'s OWN result (no ES-module imports): under the hypotheses of `C08_resolves` for the
+pair (importing file `…/ff.ts` in directory `fd`, dependency file `td…/tf.ts`), the specifier `import_path`
+returns passes the `is_same_file` test only if `td…/tf.ts` IS `fd/ff.ts`. -/
+theorem C03_dropped_import_is_self (cwd frm imp dir p b ff : Str) (fd td : List Str) (tf : Str)
+    (hdir : Path.parent frm = some dir) (hfn : Path.fileName frm = some (ff ++ Path.dotTs))
+    (hffs : '/' ∉ ff) (hffts : Text.endsWith Path.dotTs ff = false)
+    (hp : Path.absolute cwd imp = .ok p) (hb : Path.absolute cwd dir = .ok b)
+    (hpc : Path.components p = Comp.root :: Path.N (td ++ [tf ++ Path.dotTs]))
+    (hbc : Path.components b = Comp.root :: Path.N fd)
+    (hok : ∀ n ∈ fd ++ td ++ [tf ++ Path.dotTs], Path.NameOK n)
+    (htf : tf ≠ []) (hts : Text.endsWith Path.dotTs tf = false) (hjs : Text.endsWith Path.dotJs tf = false)
+    (hnp : ¬ (td ++ [tf ++ Path.dotTs]) <+: fd) :
+    ∃ spec, Path.importPath false cwd frm imp = some (.ok spec) ∧
+      (Path.isSameFile frm spec = true → td ++ [tf ++ Path.dotTs] = fd ++ [ff ++ Path.dotTs]) := by
+  obtain ⟨spec, himp, hgood⟩ := C08_resolves false cwd frm imp dir p b fd td tf hdir hp hb hpc hbc hok htf hts
+    (fun _ => hjs) hnp
+  exact ⟨spec, himp, fun hsame => Path.same_file_only_self fd _ frm spec ff hfn hffs hffts hgood hsame⟩
 
 end TsRs
